@@ -26,6 +26,11 @@ Decided clause:
   R3.8 (E17) in the assembly stream backends every `rep stos` / `rep movs` sequence covers exactly the length register it is given:
        one byte-wide operation with the full count, or a 2^k-wide one with count >> k plus a byte-wide one with count & (2^k - 1)
        (the keystream form zeroes its output this way and then XORs the keystream in). Nothing else in the .S units is analysed.
+  R3.9 (E7 sibling agreement) the set-up / wrapper functions that every backend of a cipher family defines under the same name
+       (stream_ref, stream_ietf_ext_ref, *_xor_ic, chacha_keysetup, chacha_ivsetup, chacha_ietf_ivsetup ...) perform the same
+       multiset of calls with the same role-normalised arguments in every backend; the portable unit is the reference. The
+       vectorised cores themselves differ by design and are not compared. (An IETF entry point that sets up the original
+       nonce / counter layout in one backend only.)
   R3.6 batches are independent: in the multi-block loops of the SIMD backends no value that was produced
        by the rounds of one batch is carried into the next batch (a loop-carried value at the header of a
        batch loop may only be recomputed from itself, constants and other carried values: byte count,
@@ -152,6 +157,7 @@ def run(ctx, chk):
     # portable Salsa20 code: u += in[i]; in[i] = u; u >>= 8)
     batch_rule(prog, chk)
     counter_width_rule(ctx, prog, chk)
+    sibling_wrapper_rule(prog, chk)
     # R3.8: the one thing decided about the hand-written assembly backends: `rep stos` / `rep movs` sequences cover exactly the
     # length register they are given (E17) - the keystream form of the xmm6 Salsa20 code zeroes the output and XORs into it
     if prog.config == "native":
@@ -465,3 +471,58 @@ def _ranges(bits):
         out.append("%d" % bits[i] if i == j else "%d..%d" % (bits[i], bits[j]))
         i = j + 1
     return ", ".join(out)
+
+
+def sibling_wrapper_rule(prog, chk):
+    """R3.9: same-named wrapper / set-up functions of sibling stream backends do the same thing"""
+    import collections
+    fams = collections.defaultdict(lambda: collections.defaultdict(list))
+    for f in prog.functions():
+        parts = f.unit.split("/")
+        if parts[0] == "crypto_stream" and len(parts) >= 4:
+            fams[parts[1]][f.sname].append(f)
+    n = 0
+    for fam, names in sorted(fams.items()):
+        for name, fs in sorted(names.items()):
+            if len(fs) < 2:
+                continue
+            sigs = {}
+            core = False
+            for f in fs:
+                out = set()
+                try:
+                    ps = cm.paths(prog, f, inline_helpers=False, max_paths=200)
+                except AnalysisBroken:
+                    core = True
+                    break
+                for p in ps:
+                    if p.kind != "ret":
+                        continue
+                    sh = cm.Shaper(prog, p, {i: q["name"] for i, q in enumerate(f.params)})
+                    seq = []
+                    for e in p.calls():
+                        nm = e.callee_name() or e.callee[0]
+                        if nm.startswith("llvm.x86") or nm == "asm":
+                            core = True
+                        def is_ptr(a):
+                            return isinstance(a, tuple) and (a[0] in ("gep", "alloca") or
+                                                             (a[0] == "arg" and f.params[a[1]]["ty"].endswith("*")))
+                        seq.append((nm,) + tuple(str(sh.ptr(a)) if is_ptr(a) else (a[1] if isinstance(a, tuple) and a[0] == "c" else "*")
+                                                 for a in (e.args or ())))
+                    out.add(tuple(sorted(seq, key=str)))     # a multiset: independent set-up calls may come in any order
+                sigs[f.unit] = out
+            if core:
+                continue
+            ref = next((u for u in sorted(sigs) if "/ref/" in u), sorted(sigs)[0])
+            for u in sorted(sigs):
+                if u == ref:
+                    continue
+                n += 1
+                ok = sigs[u] == sigs[ref]
+                d = sorted(sigs[u] - sigs[ref]) or sorted(sigs[ref] - sigs[u])
+                f = next(x for x in fs if x.unit == u)
+                chk.ob("R3.9", f, "%s does the same as %s of the reference backend (%s)" % (name, name, ref.split("/")[-1]), ok, loc=f.loc(),
+                       detail="" if ok else "call sequence only in %s: %s" % ("this backend" if sigs[u] - sigs[ref] else "the reference",
+                                                                            " -> ".join(c[0] for c in d[0])[:300]),
+                       key="R3.9 %s %s" % (name, u.split("/")[-1]))
+    chk.floor("R3.9", "same-named wrapper functions compared across stream backends", n, 10 if prog.config == "native" else 0)
